@@ -88,9 +88,9 @@ class TableOps(Harness):
                 out.append(dict(table=tab, n=n, op=op))
             if tier == "thorough":
                 for a, b in (("fancy", "mask"), ("slice_rev", "fancy"), ("mask", "sort_by"), ("concat", "slice_tail"), ("sort_by", "fancy")):
-                    if b == "sort_by" and tab == "seqentry":
+                    if "sort_by" in (a, b) and tab == "seqentry":      # no integer column to sort by
                         continue
-                    out.append(dict(table=tab, n=n, op=a, then=b))
+                    out.append(dict(table=tab, n=3 if "sort_by" in (a, b) else n, op=a, then=b))
         return out
 
     def inputs(self, skel, V):
